@@ -135,3 +135,97 @@ Proof.
     first [apply loc_read_u32 | apply loc_read_u64 | apply loc_read_i32 | apply loc_read_bool | apply loc_read_string
           | apply loc_read_f32 | apply loc_read_f64 | apply loc_read_rgb | apply loc_read_i64].
 Qed.
+
+(* ------------------------------------------------------------------ one iteration is local *)
+Definition locS (X : bytes -> outcome st) : Prop :=
+  forall d s', X d = Ok s' ->
+    length (s_data s') <= length d /\
+    forall r, r <= length d ->
+      (r <= length (s_data s') -> X (chop r d) = Ok (chopS r s')) /\
+      (length (s_data s') < r -> X (chop r d) = Err E_LexEof).
+
+Lemma locS_ext : forall (X Y : bytes -> outcome st), (forall d, X d = Y d) -> locS X -> locS Y.
+Proof. intros X Y E H d s' HY. rewrite <- E in HY. destruct (H _ _ HY) as [L C]. split; auto. intros r Hr. rewrite <- E. auto. Qed.
+
+Lemma locS_ret : forall ps par t, locS (fun d => Ok (mkst d ps par t)).
+Proof. intros ps par t d s' H. inversion H; subst. cbn [s_data]. split; auto. intros r Hr. split; intro; [reflexivity|lia]. Qed.
+
+Lemma locS_nok : forall (o : outcome st), is_ok o = false -> locS (fun _ => o).
+Proof. intros o H d s' E. rewrite E in H. discriminate. Qed.
+
+Lemma locS_bind : forall {A} (X : bytes -> outcome (A * bytes)) (G : A * bytes -> outcome st),
+  loc X -> (forall a, locS (fun d => G (a, d))) -> locS (fun d => obind (X d) G).
+Proof.
+  intros A X G HX HG d s' H. cbv beta in H. destruct (X d) as [[a d1]| | | |] eqn:E; try discriminate. cbn [obind] in H.
+  destruct (HX _ _ _ E) as [L1 C1]. destruct (HG a d1 s' H) as [L2 C2]. split; [lia|]. intros r Hr.
+  destruct (le_lt_dec r (length d1)) as [Hle|Hlt].
+  - destruct (C1 r Hr) as [C1a _]. rewrite (C1a Hle). cbn [obind]. apply (C2 r Hle).
+  - destruct (C1 r Hr) as [_ C1b]. rewrite (C1b Hlt). cbn [obind]. split; [intro; lia|reflexivity].
+Qed.
+
+Lemma locS_scalar_arm : forall k ps par t, locS (fun d => scalar_arm k d ps par t).
+Proof.
+  intros. unfold scalar_arm. apply locS_bind; [apply loc_read_scalar|]. intro a. cbv beta iota.
+  rewrite next_state_ok. cbn [obind]. apply locS_ret.
+Qed.
+
+Lemma locS_token_arm : forall ps par t id,
+  locS (fun d => do ps' <- next_state ps; Ok (mkst d ps' par (push t (TToken id)))).
+Proof. intros. rewrite next_state_ok. cbn [obind]. apply locS_ret. Qed.
+
+Lemma locS_slow : forall id ps par t, locS (fun d => slow false d id ps par t).
+Proof.
+  intros id ps0 par t0. unfold slow.
+  destruct (match ps0 with ObjectToArray => do t' <- mixed_insert2 t0; Ok (ArrayValueMixed, t') | _ => Ok (ps0, t0) end)
+    as [[ps t]| | | |]; cbn [obind]; try (apply locS_nok; reflexivity).
+  destruct (classify id); try apply locS_scalar_arm; try apply locS_token_arm.
+  - (* I32 *) eapply locS_ext; [|apply (locS_scalar_arm KI32 ps par t)].
+    intro d. cbv beta. destruct (scalar_arm KI32 d ps par t); reflexivity.
+  - (* Open *) destruct (negb (is_key ps)); [apply locS_ret|]. destruct t; [apply locS_nok; reflexivity|].
+    apply locS_bind; [apply loc_read_id|]. intro a. cbv beta iota.
+    destruct (N.eqb a L_CLOSE); [apply locS_ret|apply locS_nok; reflexivity].
+  - (* Close *)
+    destruct (match ps with KeyValueSeparator => mixed_insert1 t | ObjectValue => Err E_Syntax | _ => Ok t end)
+      as [t1| | | |]; cbn [obind]; try (apply locS_nok; reflexivity).
+    destruct (push_end par t1) as [[r t']| | | |]; cbn [obind]; try (apply locS_nok; reflexivity). apply locS_ret.
+  - (* Equal *)
+    destruct ps; try (apply locS_nok; reflexivity); try apply locS_ret.
+    + destruct (pop t) as [[t1 last]|]; [|apply locS_nok; reflexivity].
+      destruct (is_array_or_end last); [apply locS_nok; reflexivity|].
+      destruct (only_empties par t1); [|apply locS_ret].
+      destruct (set_parent_to_object par t1); cbn [obind]; try (apply locS_nok; reflexivity). apply locS_ret.
+    + destruct (set_parent_to_object par t); cbn [obind]; try (apply locS_nok; reflexivity). apply locS_ret.
+  - (* Rgb *)
+    destruct ps; try apply locS_token_arm.
+    apply locS_bind; [apply loc_read_scalar|]. intro a. cbv beta iota. apply locS_ret.
+Qed.
+
+Lemma finish_chopS : forall r s, finish (chopS r s) = finish s.
+Proof. reflexivity. Qed.
+
+(* one reference iteration, exactly: the cut r (counted from the end of the data) either lies
+   behind what the iteration consumes (same step on the chopped data), or inside it with at least
+   the two bytes of the token id present (Err E_LexEof), or leaves fewer than two bytes (the loop
+   `while let Some(..) = parse_next_id_opt(data)` ends: [finish]) *)
+Lemma iter_loc : forall s s' r, iter false false s = Continue s' -> r <= length (s_data s) ->
+  length (s_data s') + 2 <= length (s_data s) /\
+  (r <= length (s_data s') -> iter false false (chopS r s) = Continue (chopS r s')) /\
+  (length (s_data s') < r -> r + 2 <= length (s_data s) -> iter false false (chopS r s) = Done (Err E_LexEof)) /\
+  (length (s_data s) < r + 2 -> iter false false (chopS r s) = Done (finish s)).
+Proof.
+  intros s s' r H Hr. destruct (get_split 2 (s_data s)) as [[h d]|] eqn:Eg.
+  2:{ unfold iter in H. rewrite Eg in H. discriminate. }
+  rewrite (iter_ref_unfold _ _ _ Eg) in H.
+  destruct (slow false d (le_word 2 h) (s_ps s) (s_par s) (s_tape s)) as [s1| | | |] eqn:Es; try discriminate.
+  inversion H; subst s1; clear H.
+  destruct (locS_slow _ _ _ _ _ _ Es) as [L C]. pose proof (get_split_len _ _ _ _ Eg) as [Ld _].
+  destruct (get_split_chop _ _ _ _ _ Eg Hr) as [G1 G2].
+  split; [lia|]. split; [|split].
+  - intro Hc. assert (Hd : r <= length d) by lia.
+    rewrite (iter_ref_unfold (chopS r s) h (chop r d)) by (cbn [chopS s_data]; auto).
+    cbn [chopS s_ps s_par s_tape]. destruct (C r Hd) as [C1 _]. now rewrite (C1 Hc).
+  - intros Hc Hl. assert (Hd : r <= length d) by lia.
+    rewrite (iter_ref_unfold (chopS r s) h (chop r d)) by (cbn [chopS s_data]; auto).
+    cbn [chopS s_ps s_par s_tape]. destruct (C r Hd) as [_ C2]. now rewrite (C2 Hc).
+  - intro Hl. unfold iter. cbn [chopS s_data]. rewrite G2 by lia. reflexivity.
+Qed.
